@@ -96,6 +96,76 @@ func dsVarInit(b ast.Node, name string) string {
 	return res
 }
 
+// dsCallContexts lists, for every call of callee inside body (source order), the chain of enclosing
+// loops and if-statements: "for range chks > if cutNewChunk(...)"; a call outside any loop/if is "top".
+func dsCallContexts(b ast.Node, callee string) []string {
+	var res []string
+	if b == nil {
+		return res
+	}
+	var walk func(n ast.Node, path []string)
+	walk = func(n ast.Node, path []string) {
+		if n == nil {
+			return
+		}
+		switch s := n.(type) {
+		case *ast.RangeStmt:
+			walk(s.Body, append(append([]string{}, path...), "for range "+text(s.X)))
+			return
+		case *ast.ForStmt:
+			c := "true"
+			if s.Cond != nil {
+				c = text(s.Cond)
+			}
+			walk(s.Body, append(append([]string{}, path...), "for "+c))
+			return
+		case *ast.IfStmt:
+			if s.Init != nil {
+				walk(s.Init, append(append([]string{}, path...), "if-init "+text(s.Cond)))
+			}
+			walk(s.Body, append(append([]string{}, path...), "if "+text(s.Cond)))
+			if s.Else != nil {
+				walk(s.Else, append(append([]string{}, path...), "else-of "+text(s.Cond)))
+			}
+			return
+		case *ast.FuncLit:
+			walk(s.Body, append(append([]string{}, path...), "func"))
+			return
+		case *ast.CallExpr:
+			if callName(s) == callee {
+				if len(path) == 0 {
+					res = append(res, "top")
+				} else {
+					res = append(res, strings.Join(path, " > "))
+				}
+			}
+		}
+		// generic descent over children
+		ast.Inspect(n, func(m ast.Node) bool {
+			if m == nil || m == n {
+				return true
+			}
+			walk(m, path)
+			return false
+		})
+	}
+	walk(b, nil)
+	return res
+}
+
+// dsCallArgs lists the text of argument idx of every call of callee inside body (source order).
+func dsCallArgs(b ast.Node, callee string, idx int) []string {
+	var res []string
+	for _, c := range calls(b, callee) {
+		if idx < len(c.Args) {
+			res = append(res, text(c.Args[idx]))
+		} else {
+			res = append(res, "unknown")
+		}
+	}
+	return res
+}
+
 // dsIfConds lists every if-condition in body, in source order.
 func dsIfConds(b ast.Node) []string {
 	var r []string
@@ -130,6 +200,13 @@ func factsDownsample() {
 	emitStr("dsRawBatchSize", "downsample.go downsampleRawLoop: batchSize", dsAssignRHS(rl, "batchSize"))
 	emitList("dsRawLoops", "downsample.go downsampleRawLoop: loop conditions in source order (outer loop, window extension, NaN filter)", dsForConds(rl))
 	emitStr("dsRawCurW", "downsample.go downsampleRawLoop: the window the batch is extended to", dsAssignRHS(rl, "curW"))
+	emitList("dsRawBatchFn", "downsample.go DownsampleRaw: the batch function handed to downsampleRawLoop (histogram branch, float branch)",
+		dsCallArgs(body(fn(d, "", "DownsampleRaw")), "downsampleRawLoop", 4))
+	emitList("dsFloatBatchAggr", "downsample.go downsampleFloatBatch: the aggregator handed to downsampleBatch (a fresh one per batch)",
+		dsCallArgs(body(fn(d, "", "downsampleFloatBatch")), "downsampleBatch", 2))
+	emitList("dsFloatBatchCalls", "downsample.go downsampleFloatBatch: calls in source order", callSeq(body(fn(d, "", "downsampleFloatBatch")), "newAggrChunkBuilder", "Append", "downsampleBatch", "encode", "downsampleFloatBatchWith"))
+	emitList("dsDownsampleRawCalls", "downsample.go Downsample(): where DownsampleRaw is called (enclosing loops / ifs of every call, source order)",
+		dsCallContexts(body(fn(d, "", "Downsample")), "DownsampleRaw"))
 	al := body(fn(d, "", "downsampleAggrLoop"))
 	emitStr("dsAggrBatchSize", "downsample.go downsampleAggrLoop: batchSize", dsAssignRHS(al, "batchSize"))
 	emitList("dsAggrLoopConds", "downsample.go downsampleAggrLoop: if-conditions in source order", dsIfConds(al))
